@@ -631,7 +631,7 @@ func checkC08TsrParams(w *World, r *Report) {
 // checkC08ParentPairing: the "remove the trailing slash" candidates are the parent of the current node, so the two
 // variables must move together.
 func checkC08ParentPairing(w *World, r *Report) {
-	ru := r.Rule("C08.6", "parent and current move together: wherever the path matcher moves `current` to a child X.children[...] (descent into the static, param or catch-all child, and the resumption of a skipped alternative) it sets `parent` to X in the same basic block; the trailing-slash candidate `parent` is therefore always the node current hangs under", 4)
+	ru := r.Rule("C08.6", "parent and current move together: wherever the path matcher moves `current` to a child X.children[...] (descent into the static, param or catch-all child, and the resumption of a skipped alternative) it sets `parent` to X in the same basic block; the trailing-slash candidate `parent` is therefore always the node current hangs under", 2)
 	af := w.astFuncOf(modulePath, "lookupByPath")
 	n := 0
 	for _, b := range af.g.Blocks {
